@@ -29,7 +29,7 @@ Definition op_f : sop :=
      so_abstract := true; so_query := true; so_static := false; so_doc := DText "Does F."; so_params := [p_x; p_y];
      so_nl := crlf; so_layout := [n2; i_html; STag TChild; STag TVis; STag TQuery; n1; STag TRet; STag TDoc; STag TAbstract] |}.
 Definition op_g : sop :=
-  {| so_id := "OPER000000000002"; so_name := "G"; so_vis := Some "68"; so_ret := []; so_retmod := ""; so_abstract := false; so_query := false;
+  {| so_id := "OPER000000000002"; so_name := "operator()"; so_vis := Some "68"; so_ret := []; so_retmod := ""; so_abstract := false; so_query := false;
      so_static := false; so_doc := DText ""; so_params := []; so_nl := crlf; so_layout := [STag TVis; n3] |}.
 Definition at_m : sattr :=
   {| sa_id := "ATTR000000000001"; sa_name := "m_count"; sa_vis := None; sa_type := ["DTINT00000000001"]; sa_mod := ""; sa_mult := "4"; sa_doc := DRaw ("It" ++ String SQ "s (really)" ++ String LF "two lines.");
